@@ -14,6 +14,7 @@
 import Model.Template
 import Proofs.IntTextJson
 import Proofs.JsonPrint
+import Proofs.RoundTrip
 
 namespace Jl.C02
 open Jl Jl.Value
@@ -56,5 +57,42 @@ theorem strings_survive (s : Bytes) :
     (Utf8.valid s = true → JsonQuote.sanitize s = s) ∧
     JsonQuote.sanitize (JsonQuote.sanitize s) = JsonQuote.sanitize s :=
   ⟨JsonQuote.sanitize_valid s, JsonQuote.sanitize_idem s⟩
+
+/-! ### The whole property, byte level (`Proofs/RoundTrip.lean`)
+
+`jlLine env [] [] line` is what the untemplated importer → exporter does with one line. `t` is the
+ordered tree the reader delivers for the text (members in order at every depth, strings decoded,
+number literals verbatim); `UniqueKeys t`: no member name occurs twice in an object, at any
+depth. No hypothesis on the cast tables, on the stdlib parameters or on the strings: the
+untemplated path never casts and never prints a float, and every string the decoder returns is
+well-formed UTF-8 (ill-formed input bytes have already become U+FFFD in `t`). -/
+
+/-- Lossless and a byte-level fixed point: for every accepted line whose member names are unique at
+    every depth, the line written denotes the same ordered tree, and feeding it back yields exactly
+    the same bytes (and the line holds no raw newline). -/
+theorem lossless_and_fixed_point (env : Env) (line : Bytes) (t : JVMembers)
+    (hread : Json.unmarshal line = (t, true)) (hu : RoundTrip.UniqueKeys t) :
+    ∃ out, Jl.Template.jlLine env [] [] line = .ok (out ++ [0x0A], none) ∧ Json.unmarshal out = (t, true) ∧
+      Jl.Template.jlLine env [] [] out = .ok (out ++ [0x0A], none) ∧ (0x0A : UInt8) ∉ out :=
+  RoundTrip.lossless_fixed_point env line t hread hu
+
+/-- The output is a function of the tree alone (`printTree`): insignificant white space and escape
+    spellings of the input do not matter, everything the tree records does. -/
+theorem output_is_print_of_tree (env : Env) (line : Bytes) (t : JVMembers)
+    (hread : Json.unmarshal line = (t, true)) (hu : RoundTrip.UniqueKeys t) :
+    Jl.Template.jlLine env [] [] line = .ok (RoundTrip.printTree t ++ [0x0A], none) :=
+  RoundTrip.jlLine_untemplated env line t hread hu
+
+/-- The domain restriction is needed: with a repeated name the second value is imported into the
+    first occurrence's cell, so a member is lost (`RoundTrip.Dup.dup_imports_first`). -/
+theorem unique_names_needed (env : Env) (line : Bytes) (t : JVMembers)
+    (h : Jl.Template.getRow env [] line = .ok (RoundTrip.rowOfTree t, none)) :
+    ((RoundTrip.pairsOf t).map Prod.fst).Nodup :=
+  RoundTrip.row_of_tree_only_if env line t h
+
+/-- Every string the reader returns is well-formed UTF-8 and every number literal a valid JSON number,
+    for ANY input bytes (rejected lines included). -/
+theorem reader_delivers_clean_tree (line : Bytes) : RoundTrip.ReaderTree (Json.unmarshal line).1 :=
+  RoundTrip.reader_tree_ok line
 
 end Jl.C02
